@@ -119,6 +119,8 @@ def _forms(dim, lam, mu, A, coef_fun):
     out = {
         "mass": (1, lambda u, v: u.dot(v), lambda g, f: Operators.Bilinear.UV(g, 1.0, 1, mt)),
         "mass_coef": (1, lambda u, v: 2.5 * u.dot(v), lambda g, f: Operators.Bilinear.UV(g, 2.5, 1, mt)),
+        "mass_product": (1, lambda u, v: u * v, lambda g, f: Operators.Bilinear.UV(g, 1.0, 1, mt)),
+        "mass_product_rev": (1, lambda u, v: 0.5 * v * u * 3.0, lambda g, f: Operators.Bilinear.UV(g, 1.5, 1, mt)),
         "grad": (1, lambda u, v: u.grad.dot(v.grad), lambda g, f: Operators.Bilinear.GradUGradV(g, 1.0, mt)),
         "grad_A": (1, lambda u, v: u.grad.dot(A @ v.grad) if False else (u.grad @ A).dot(v.grad), lambda g, f: Operators.Bilinear.GradU_A_GradV(g, A, matrixType=mt) if hasattr(Operators.Bilinear, "GradU_A_GradV") else None),
         "grad_x": (1, lambda u, v: FeArray.asfearray(coef_at(u)) * u.grad.dot(v.grad), lambda g, f: Operators.Bilinear.GradUGradV(g, FeArray.asfearray(coef_at(f)), mt)),
@@ -383,7 +385,7 @@ def build(tier, seed):
         obs.append(Ob(f"C13.assemble.index.{kind}", ob_assemble_index, (kind,), "P", (f"{FP}::{cls}.Assemble",),
                       clause="values paired with rows_e/columns_e (bilinear) or assembly_e and column 0 (linear); shape (Ndof,Ndof) / (Ndof,1)"))
     types = ["TRI3", "QUAD4", "TRI6", "TETRA4"] if tier == "quick" else ["SEG3", "TRI3", "TRI6", "TRI10", "QUAD4", "QUAD8", "QUAD9", "TETRA4", "TETRA10", "HEXA8", "PRISM6"]
-    names = ["mass", "mass_coef", "grad", "grad_A", "grad_x", "elastic", "elastic_T", "elastic_transpose", "vector_mass", "vector_mass_rho"]
+    names = ["mass", "mass_coef", "mass_product", "mass_product_rev", "grad", "grad_A", "grad_x", "elastic", "elastic_T", "elastic_transpose", "vector_mass", "vector_mass_rho"]
     for et in types:
         dim = common.elem_infos(et)[2]
         for nm in names:
